@@ -5,7 +5,8 @@
 //        stalled inside the queue push between claiming its slot and publishing it (yield point 3 of uMPMC_Ptr_Queue::push) until stop() has been entered
 //        (plus 1 ms; at most 200 ms) - an injected schedule: a line accepted from another producer behind a claimed but unpublished slot
 //        every producer thread submits its lines through FileLogger::send; stop() is called by the main thread after all producers
-//        have finished (stop_after_n = -1) or as soon as the total number of returned sends reaches stop_after_n (while producers run)
+//        have finished (stop_after_n = -1) or as soon as the total number of returned sends reaches stop_after_n (while producers run);
+//        stop_after_n = -3: no producer threads - the creating thread submits all scripts itself right behind the constructor and stops at once
 //        -> {"ret":[[r,before]...per producer], "file":hex, "stop_s":seconds}     before: the send returned before stop() was entered
 //   logrot <log|store> <rotnum> <append 0|1> <force 0|1> <twice 0|1> <name,content;...>   files to create first (name relative, content hex)
 //        -> {"files":{name:hex...},"ok":bool}
@@ -91,6 +92,23 @@ static Reg r_logrun("logrun", [](std::istringstream& is) {
 	std::string out;
 	{
 		FileLogger lg(path, Logger::LogFlags() << Logger::sequence << Logger::thread << Logger::level, levels, " ", Logger::LogPositions(), 0);
+		if (stop_after == -3)
+		{
+			// inline mode: the creating thread submits every script itself right behind the constructor and stops at once - the logger's own thread may not
+			// have run yet
+			for (size_t p(0); p < sc.size(); ++p)
+			{
+				for (size_t k(0); k < sc[p].size(); ++k)
+				{
+					if (sc[p][k] == 'y' || sc[p][k] == 'h') { rets[p].emplace_back(-1, -1); continue; }
+					const bool r(lg.send("P" + std::to_string(p) + "L" + std::to_string(k), lev_of(sc[p][k])));
+					++returned;
+					rets[p].emplace_back(r ? 1 : 0, 1);
+				}
+				++finished;
+			}
+		}
+		else
 		for (size_t p(0); p < sc.size(); ++p)
 			th.emplace_back([&, p] {
 				while (!go.load()) sched_yield();
@@ -424,7 +442,13 @@ struct TimerProbe : TimerMonitor
 
 static Reg r_timer("timer", [](std::istringstream& is) {
 	std::string script; is >> script;
-	const long long T0(1700000000LL * 1000000000LL);
+	long long T0(1700000000LL * 1000000000LL);
+	if (!script.empty() && script[0] == 'o')       // o<ms>; : the origin lies that many milliseconds behind a whole second (due times then straddle a second boundary)
+	{
+		const size_t sc(script.find(';'));
+		T0 += atoll(script.c_str() + 1) * 1000000LL;
+		script = sc == std::string::npos ? std::string() : script.substr(sc + 1);
+	}
 	vclock_ns = T0;
 	vclock_on = true;
 	TimerProbe mon;
